@@ -95,3 +95,83 @@ Proof.
       [reflexivity|right; left; reflexivity|]. apply NC_null.
   - eapply NC_int_range; reflexivity.
 Qed.
+
+(* ---- arguments and variable defaults (Proofs/ArgProofs.v) ----
+   arg_spec S vars a l r: what the specification assigns to argument definition a when l was
+   written for it: r = jlookup x vars (the coerced variable value) if l = Some (VVar x), else the
+   literal coercion SL S (a_type a) l r (l = None: nothing written).
+   with_default d r: r, or the default d when r is null; keep_nonnull drops null entries. *)
+From GQL Require Import Proofs.ArgProofs.
+
+(* getArgumentValues: resolvers receive exactly the map input coercion yields from the written
+   literals / variables and the argument defaults *)
+Theorem C05_arguments_correct : forall S vars defs args (r : argdef -> jv),
+  (forall a, In a defs -> arg_spec S vars a (alookup (a_name a) args) (r a)) ->
+  forall fuel m, get_argument_values fuel S defs args (Some vars) = Some m ->
+    m = keep_nonnull (map (fun a => (a_name a, with_default (a_default a) (r a))) defs).
+Proof. exact arguments_correct. Qed.
+Print Assumptions C05_arguments_correct.
+
+(* constant literals only, whatever the variable map *)
+Theorem C05_arguments_from_literals : forall S defs args (r : argdef -> jv),
+  (forall a, In a defs -> SL S (a_type a) (alookup (a_name a) args) (r a)) ->
+  forall fuel vars m, get_argument_values fuel S defs args vars = Some m ->
+    m = keep_nonnull (map (fun a => (a_name a, with_default (a_default a) (r a))) defs).
+Proof. exact arguments_from_literals. Qed.
+Print Assumptions C05_arguments_from_literals.
+
+(* the arguments of a field are coerced exactly like the fields of an input-object literal *)
+Theorem C05_arguments_SLF : forall S defs args kvs, SLF S defs args kvs ->
+  forall fuel vars m, get_argument_values fuel S defs args vars = Some m -> m = keep_nonnull kvs.
+Proof. exact arguments_SLF. Qed.
+Print Assumptions C05_arguments_SLF.
+
+(* per argument (distinct argument names): what the resolver finds under the argument's name *)
+Theorem C05_argument_received : forall S vars defs args (r : argdef -> jv),
+  NoDup (map a_name defs) ->
+  (forall a, In a defs -> arg_spec S vars a (alookup (a_name a) args) (r a)) ->
+  forall fuel m, get_argument_values fuel S defs args (Some vars) = Some m ->
+  forall a, In a defs -> jlookup (a_name a) m = with_default (a_default a) (r a).
+Proof. exact argument_received. Qed.
+Print Assumptions C05_argument_received.
+
+(* an argument written as $x receives the coerced value of x, or the argument default if that is null *)
+Theorem C05_argument_variable_received : forall S vars defs args (r : argdef -> jv) a x,
+  NoDup (map a_name defs) ->
+  (forall a0, In a0 defs -> arg_spec S vars a0 (alookup (a_name a0) args) (r a0)) ->
+  In a defs -> alookup (a_name a) args = Some (VVar x) ->
+  forall fuel m, get_argument_values fuel S defs args (Some vars) = Some m ->
+    jlookup (a_name a) m = with_default (a_default a) (jlookup x vars).
+Proof. exact argument_variable_received. Qed.
+Print Assumptions C05_argument_variable_received.
+
+(* a variable whose input is absent or null: the literal coercion of its default, or null *)
+Theorem C05_variable_default : forall S d dv r, v_default d = Some dv -> SL S (v_type d) (Some dv) r ->
+  forall fuel x, get_variable_value fuel S d JNull = Some (inl x) ->
+    x = r /\ is_nonnull (v_type d) = false.
+Proof. exact variable_default. Qed.
+Print Assumptions C05_variable_default.
+
+Theorem C05_variable_no_default : forall S d, v_default d = None ->
+  forall fuel x, get_variable_value fuel S d JNull = Some (inl x) ->
+    x = JNull /\ is_nonnull (v_type d) = false.
+Proof. exact variable_no_default. Qed.
+Print Assumptions C05_variable_no_default.
+
+(* the same in the variable map of a request (distinct variable names) *)
+Theorem C05_variables_default : forall fuel S ds inputs vars d dv r,
+  NoDup (map v_name ds) -> In d ds ->
+  get_variable_values fuel S ds inputs = Some (inl vars) ->
+  jlookup (v_name d) inputs = JNull ->
+  v_default d = Some dv -> SL S (v_type d) (Some dv) r ->
+  jlookup (v_name d) vars = r.
+Proof. exact variables_default. Qed.
+Print Assumptions C05_variables_default.
+
+Theorem C05_variables_no_default : forall fuel S ds inputs vars d,
+  NoDup (map v_name ds) -> In d ds ->
+  get_variable_values fuel S ds inputs = Some (inl vars) ->
+  jlookup (v_name d) inputs = JNull -> v_default d = None ->
+  jlookup (v_name d) vars = JNull.
+Proof. exact variables_no_default. Qed.
+Print Assumptions C05_variables_no_default.
